@@ -17,7 +17,8 @@ INT = {"type": "integer"}
 STR = {"type": "string"}
 DEFS = {"Base": {"type": "object", "properties": {"c": {"type": "boolean"}}, "required": ["c"]},
         "Closed": {"type": "object", "properties": {"a": INT}, "additionalProperties": False},
-        "En": {"type": "string", "enum": ["x", "y"]}}
+        "En": {"type": "string", "enum": ["x", "y"]},
+        "PQ": {"oneOf": [{"type": "object", "properties": {"p": STR}, "required": ["p"]}, {"type": "object", "properties": {"q": INT}, "required": ["q"]}]}}
 FRAGS = {
     "a_opt": {"type": "object", "properties": {"a": INT}},
     "a_req": {"type": "object", "properties": {"a": INT}, "required": ["a"]},
@@ -45,6 +46,14 @@ FRAGS = {
     "tup1_ai_false": {"type": "array", "items": [INT], "additionalItems": False},
     "tup2": {"type": "array", "items": [INT, INT], "minItems": 2, "maxItems": 2},
     "tup3_any": {"type": "array", "items": [INT, {}, {}], "minItems": 3, "maxItems": 3},
+    # fragments for the arms of merge.rs / validate.rs a coverage run of the quick tier found unexercised
+    "ty_str_null": {"type": ["string", "null"]}, "ty_int_str": {"type": ["integer", "string"]}, "ty_obj_null": {"type": ["object", "null"]},
+    "fmt_ip": {"type": "string", "format": "ip"}, "fmt_ipv4": {"type": "string", "format": "ipv4"}, "fmt_uuid": {"type": "string", "format": "uuid"},
+    "const_a": {"const": "a"}, "enum_mixed": {"enum": ["a", 1, None]},
+    "not_req_a": {"not": {"required": ["a"]}}, "not_anyof_req": {"not": {"anyOf": [{"required": ["a"]}, {"required": ["extra"]}]}},
+    "anyof_req": {"anyOf": [{"required": ["a"]}, {"required": ["b"]}]},
+    "arr_contains": {"type": "array", "contains": INT}, "arr_max1": {"type": "array", "maxItems": 1},
+    "ref_oneof": {"$ref": "#/definitions/PQ"}, "minprops2": {"type": "object", "minProperties": 2}, "maxprops1": {"type": "object", "maxProperties": 1},
 }
 QUICK = ["a_opt", "a_req", "b_req", "ab_closed", "ref_base", "ref_closed", "extra_req", "b_enum_xy", "b_enum_yz", "str_enum_ab", "enum_bc"]
 TRIPLE = ["a_opt", "a_req", "b_req", "ab_closed", "ref_base", "extra_req", "b_enum_xy", "b_enum_yz", "ap_str", "oneof_pq"]
@@ -110,7 +119,8 @@ def execute(cases_, tier, seed):
     for c, wc in zip(cases_, wcs):
         res.states += 1
         res.transitions += 2
-        feats = {"combo": ",".join(c["combo"]), "multiset": ",".join(c["multiset"])}
+        feats = {"combo": ",".join(c["combo"]), "multiset": ",".join(c["multiset"]),
+                 "uses_oneof_open": any(n in ("oneof_pq", "ref_oneof") for n in c["combo"]), "uses_anyof_req": "anyof_req" in c["combo"]}
         st = "rejected" if wc.compiled is None else ("uncompilable" if not wc.compiled else "ok")
         outcomes[st] = outcomes.get(st, 0) + 1
         vec = None
@@ -145,7 +155,8 @@ def execute(cases_, tier, seed):
         ref_c, ref_wc, ref_st, ref_vec = members[0]
         for c, wc, st, vec in members[1:]:
             res.transitions += 1
-            feats = {"combo": ",".join(c["combo"]), "multiset": ",".join(c["multiset"])}
+            feats = {"combo": ",".join(c["combo"]), "multiset": ",".join(c["multiset"]),
+                 "uses_oneof_open": any(n in ("oneof_pq", "ref_oneof") for n in c["combo"]), "uses_anyof_req": "anyof_req" in c["combo"]}
             if st != ref_st:
                 res.violations.append(Violation(wc.key, "order-dependent-outcome", "%s is %s but %s is %s" % (wc.id, st, ref_wc.id, ref_st), wc.placed,
                                                 expected=ref_st, observed=st, features=feats, items=[c["combo"], ref_c["combo"]]))
